@@ -417,6 +417,10 @@ def oracle_lookup(stack, nreach, cli, opt, mp, defaults):
 # ---------------------------------------------------------------------------
 
 
+def gen_files():
+    return {"Options.v": tr_options.translate(str(lib.REPO))}
+
+
 def queries_for(rng, n=4):
     qs = [()]
     for _ in range(n):
@@ -430,7 +434,7 @@ def run(tier: str, replay: str | None = None):
     # 1. regenerate + prove
     broken_translation = None
     try:
-        gen = {"Options.v": tr_options.translate(str(lib.REPO))}
+        gen = gen_files()
     except tr_options.TranslateError as ex:
         broken_translation = str(ex)
         gen = None
